@@ -440,7 +440,7 @@ func main() {
 		return
 	}
 
-	n, nbig := 300, 12
+	n, nbig := 300, 6
 	if a.Thorough() {
 		n, nbig = 4000, 150
 	}
